@@ -212,6 +212,124 @@ def o_path_vs_stream(ctx):
         shutil.rmtree(d, ignore_errors=True)
 
 
+def o_nccg_purity(ctx):
+    """the module-level NCCG singleton answers a coupling probe from its
+    arguments alone: the same probe on the singleton after an earlier probe
+    (other conformation, other energies, same or different pH) equals the
+    probe on a fresh NonCovalentlyCoupledGroups object"""
+    import propka.coupled_groups as CG
+    from .c02 import mk_group
+    from .c15 import _fill, PATTERNS
+    p = H.params(fresh=True)
+    p.pH = ctx.choice('parameters_pH', ['variable', 7.0])
+
+    class Fixed:
+        """context stand-in that hands out fixed numbers (the earlier probe's
+        structure is concrete; only its energies are symbolic)"""
+        def __init__(self):
+            self.n = 0
+
+        def real(self, name, lo=None, hi=None):
+            self.n += 1
+            return [4.25, 0.5, -0.25, 1.5, -0.75, 0.3, 3.9, 0.2, 0.1, -1.1, 0.6][self.n % 11]
+
+    def world(tag, pat, concrete=False):
+        g1 = mk_group('COOGroup', 'ASP', 25, 'CG', chain='A', q=-1, p=p)
+        g2 = mk_group('COOGroup', 'ASP', 25, 'CG', chain='B', q=-1, p=p)
+        g3 = mk_group('TYRGroup', 'TYR', 30, 'OH', q=-1, p=p)
+        bb = mk_group('BBNGroup', 'ALA', 31, 'N', q=0, p=p)
+        src = Fixed() if concrete else ctx
+        _fill(src, g1, tag + 'g1', [g2, g3, bb], pat[0])
+        _fill(src, g2, tag + 'g2', [g1, g3, bb], pat[1])
+        calls = []
+
+        def energy(ph=None, reference=None):
+            v = ctx.real('%s_energy_%d' % (tag, len(calls)), -20, 20)
+            calls.append(v)
+            return v
+        return g1, g2, energy
+    pat = PATTERNS[0]
+    # earlier probe on the singleton (another structure with its own energies)
+    CG.NCCG.parameters = p
+    a1, a2, ea = world('A', pat, concrete=True)
+    CG.NCCG.is_coupled_protonation_state_probability(a1, a2, ea, return_on_fail=False)
+    # the probe under test: same groups' values may coincide with the earlier ones (solver's choice)
+    b1, b2, eb = world('B', pat)
+    c1, c2, ec = world('C', pat)
+    # C is an exact copy of B (same symbolic values) probed on a fresh object
+    for src, dst in ((b1, c1), (b2, c2)):
+        dst.model_pka, dst.energy_volume, dst.energy_local = src.model_pka, src.energy_volume, src.energy_local
+        for k in dst.determinants:
+            for ds, dd in zip(src.determinants[k], dst.determinants[k]):
+                dd.value = ds.value
+        dst.calculate_total_pka()
+    vals = []
+
+    def eb2(ph=None, reference=None):
+        v = ctx.real('B_energy_%d' % len(vals), -20, 20)
+        vals.append(v)
+        return v
+    seq = []
+
+    def ec2(ph=None, reference=None):
+        seq.append(1)
+        return vals[len(seq) - 1]
+    rb = CG.NCCG.is_coupled_protonation_state_probability(b1, b2, eb2, return_on_fail=False)
+    fresh = CG.NonCovalentlyCoupledGroups()
+    fresh.parameters = p
+    rc = fresh.is_coupled_protonation_state_probability(c1, c2, ec2, return_on_fail=False)
+    ctx.claim('same-keys', sorted(rb) == sorted(rc))
+    for k in rb:
+        if k in rc:
+            ctx.claim('singleton-equals-fresh-object:' + k, eq(rb[k], rc[k]) if not isinstance(rb[k], str) else rb[k] == rc[k],
+                      detail='%s: %r vs %r' % (k, rb[k], rc[k]))
+
+
+def o_protonator_purity(ctx):
+    """group.PROTONATOR after protonating other atoms (incl. an unknown
+    element) places hydrogens exactly like a fresh Protonate object"""
+    import propka.group as G
+    import propka.protonate as P
+    hist = ctx.choice('history', ['unknown-element', 'charged-N', 'none'])
+
+    def amide(tagx):
+        conf = H.conformation()
+        n = H.atom('N', 'ALA', 5, 'A', tagx, 0.0, 0.0)
+        c = H.atom('C', 'GLY', 4, 'A', tagx + 1.33, 0.2, 0.1)
+        ca = H.atom('CA', 'ALA', 5, 'A', tagx - 0.6, 1.3, 0.0)
+        for a in (n, c, ca):
+            conf.add_atom(a)
+        for b in (c, ca):
+            n.bonded_atoms.append(b)
+            b.bonded_atoms.append(n)
+        n.num_pi_elec_conj_2_3_bonds = 1
+        return conf, n
+    if hist == 'unknown-element':
+        conf0 = H.conformation()
+        x = H.atom('XX', 'UNK', 1, 'A', 0.0, 0.0, 0.0, rec='hetatm', element='Xx')
+        conf0.add_atom(x)
+        G.PROTONATOR.protonate_atom(x)
+    elif hist == 'charged-N':
+        conf0 = H.conformation()
+        nz = H.atom('NZ', 'LYS', 1, 'A', 0.0, 0.0, 0.0)
+        ce = H.atom('CE', 'LYS', 1, 'A', 1.5, 0.0, 0.0)
+        nz.bonded_atoms.append(ce)
+        ce.bonded_atoms.append(nz)
+        conf0.add_atom(nz)
+        conf0.add_atom(ce)
+        G.PROTONATOR.protonate_atom(nz)
+    x0 = ctx.real('x', -3, 3)
+    ca_, na = amide(x0)
+    cb_, nb = amide(x0)
+    G.PROTONATOR.protonate_atom(na)
+    P.Protonate().protonate_atom(nb)
+    ha = [(a.x, a.y, a.z) for a in na.bonded_atoms if a.element == 'H']
+    hb = [(a.x, a.y, a.z) for a in nb.bonded_atoms if a.element == 'H']
+    ctx.claim('same-number-of-hydrogens', len(ha) == len(hb) == 1, detail='%r vs %r' % (ha, hb))
+    for p_, q_ in zip(ha, hb):
+        ctx.claim('same-position', And(eq(p_[0], q_[0]), eq(p_[1], q_[1]), eq(p_[2], q_[2])))
+
+
 def obligations(tier):
     CC = 'propka/conformation_container.py:ConformationContainer.'
     code = [CC + 'get_coupled_systems', CC + 'get_a_coupled_system_of_groups', CC + 'coupling_effects', CC + 'share_determinants',
@@ -230,6 +348,13 @@ def obligations(tier):
                                 'propka/lib.py:Options (class defaults)', 'propka/run.py:single'],
                           bounds='4 subject runs x histories of 1-2 earlier runs out of 9 (other structures/options, -d, unknown element, modified Parameters)',
                           claim_doc='the subject run gives the same values and text before and after the history', max_paths=100000, shards=16, wall_s=170))
+    obs.append(Obligation('O4-singleton-purity[NCCG]', o_nccg_purity,
+                          code=['propka/coupled_groups.py:NCCG', 'propka/coupled_groups.py:NonCovalentlyCoupledGroups.is_coupled_protonation_state_probability'],
+                          bounds='an earlier probe on a concrete structure with symbolic energies, then the probe under test (2 groups + bystander, all values and energies symbolic); pH variable or 7',
+                          claim_doc='every entry of the result equals the result of the same probe on a fresh object (no state carried between probes)', max_paths=20000, shards=4))
+    obs.append(Obligation('O4-singleton-purity[PROTONATOR]', o_protonator_purity,
+                          code=['propka/group.py:PROTONATOR', 'propka/protonate.py:Protonate.protonate_atom'],
+                          bounds='amide N at symbolic x after protonating an unknown element / a charged N / nothing', claim_doc='same hydrogen as a fresh Protonate object'))
     obs.append(Obligation('O3-path-stream-cwd', o_path_vs_stream, code=['propka/input.py:open_file_for_reading', 'propka/input.py:read_molecule_file', 'propka/run.py:single',
                                                                         'propka/molecular_container.py:MolecularContainer.write_pka'],
                           bounds='3 micro-structures: path vs StringIO vs another working directory (concrete runs)', kind='table-check',
